@@ -1101,9 +1101,41 @@ func (w *Worker) tryMerge(fr *frame, instr *ssa.If, cond *term.Term) bool {
 				}
 				_ = xt
 				res[i].vals[in] = w.binop(in.Op, in.X.Type(), in.Y.Type(), x, y)
-			case *ssa.UnOp:
-				if in.Op == token.MUL || in.Op == token.ARROW {
+			case *ssa.IndexAddr:
+				// a concrete, in-range element address is pure
+				idx, ok := w.armGet(fr, res[i].vals, in.Index).(*term.Term)
+				if !ok || !idx.IsConst() {
 					return false
+				}
+				k := int(idx.Signed())
+				switch x := w.armGet(fr, res[i].vals, in.X).(type) {
+				case SliceV:
+					if k < 0 || k >= x.Len {
+						return false
+					}
+					res[i].vals[in] = PtrV{O: w.kid(x.Arr, x.Off+k)}
+				case PtrV:
+					if x.O == nil || k < 0 || k >= x.O.N {
+						return false
+					}
+					res[i].vals[in] = PtrV{O: w.kid(x.O, k)}
+				default:
+					return false
+				}
+			case *ssa.UnOp:
+				if in.Op == token.ARROW {
+					return false
+				}
+				if in.Op == token.MUL {
+					p, ok := w.armGet(fr, res[i].vals, in.X).(PtrV)
+					if !ok || p.O == nil || !p.O.Leaf {
+						return false
+					}
+					if _, ok := p.O.V.(*term.Term); !ok {
+						return false
+					}
+					res[i].vals[in] = p.O.V
+					continue
 				}
 				x := w.armGet(fr, res[i].vals, in.X)
 				if _, ok := x.(*term.Term); !ok {
